@@ -13,6 +13,7 @@ import (
 	"github.com/mgtv-tech/redis-GunYu/config"
 	"github.com/mgtv-tech/redis-GunYu/syncer"
 
+	"verifsim/simfs"
 	"verifsim/simredis"
 	"verifsim/simrt"
 )
@@ -255,7 +256,8 @@ func (c *c06sim) setViolation(rule, sig, format string, a ...any) {
 }
 
 func init() {
-	Register(&PropertyDef{ID: "C06", Strata: []string{"mem-disconnect", "mem-restart", "mem-failover", "mem-newid", "mem-trim"}, Run: runC06, StepCap: 20000})
+	Register(&PropertyDef{ID: "C06", Strata: []string{"mem-disconnect", "mem-restart", "mem-failover", "mem-newid", "mem-trim",
+		"disk-disconnect", "disk-restart", "disk-failover", "disk-newid", "disk-trim"}, Run: runC06, StepCap: 20000})
 }
 
 func (c *c06sim) newSnapshot() []byte {
@@ -399,6 +401,16 @@ func runC06(r *Run, stratum string) *Violation {
 	c.stub = &outStub{src: c.si, cfgRunID: id1}
 
 	mcfg := config.ChannelConfig{Type: config.ChannelTypeMemory, Memory: &config.MemoryConfig{MaxSize: 1 << 20, LogSize: int64(64 << g.Choose("logsize", 6))}}
+	disk := strings.HasPrefix(stratum, "disk")
+	if disk {
+		// disk cache over the in-memory file system; a tool restart reopens the directory with a fresh StoreChannel
+		fs := simfs.New()
+		simfs.SetFS(fs)
+		defer simfs.SetFS(nil)
+		fs.MkdirAll("/c06cache", 0o777)
+		cacheSetVerify(false)
+		mcfg = config.ChannelConfig{Type: config.ChannelTypeStorer, Storer: &config.StorerConfig{DirPath: "/c06cache", MaxSize: 1 << 30, LogSize: mcfg.Memory.LogSize}}
+	}
 	c.ch = syncer.NewChannel(mcfg, simSourceAddr)
 
 	// ---- epoch 0: fill the cache through the real code
@@ -422,7 +434,19 @@ func runC06(r *Run, stratum string) *Violation {
 	restart := strings.HasSuffix(stratum, "restart") || g.Choose("restart", 3) == 0
 	if restart {
 		c.stopInput()
-		if g.Choose("losecache", 2) == 0 {
+		if disk {
+			// process restart: the cache directory is reopened by a new StoreChannel (or was wiped)
+			c.ch.Close()
+			r.Settle()
+			if g.Choose("losecache", 3) == 0 {
+				simfs.Cur().RemoveAll("/c06cache")
+				simfs.Cur().MkdirAll("/c06cache", 0o777)
+				desc += "+cache-wiped"
+			} else {
+				desc += "+cache-reopened"
+			}
+			c.ch = syncer.NewChannel(mcfg, simSourceAddr)
+		} else if g.Choose("losecache", 2) == 0 {
 			// a process restart loses the memory cache
 			c.ch.Close()
 			c.ch = syncer.NewChannel(mcfg, simSourceAddr)
